@@ -87,6 +87,9 @@ package floatingip
 //@   ensures [C01,C05:release-frees-entry] err == nil ==> !(ipS in ci.allocatedFIPs) && ipS in ci.unallocatedFIPs && ci.unallocatedFIPs[ipS] == old(ci.allocatedFIPs[ipS]) && !StoreDom[ipS]
 //@   ensures [C01,C04:release-frame] tablesSameExcept(ci, ipS) && entriesSameExcept(old(ci.allocatedFIPs[ipS])) && ciFieldsSame(ci)
 //@   ensures [C05,C01:release-failure-atomic] err != nil ==> tablesSame(ci) && storeUnchanged() && sameEntry(old(ci.allocatedFIPs[ipS]))
+//@   ensures [C04:release-store-needs-key-match] err == nil ==> old(StoreDom[ipS]) && old(StoreKey[ipS]) == key
+//@   ensures [C04:release-store-effect] err == nil ==> StoreDom == old(StoreDom)[ipS := false] && StoreKey == old(StoreKey) && StorePolicy == old(StorePolicy) && StoreNode == old(StoreNode) && StoreUid == old(StoreUid)
+//@   ensures [C04:release-store-failure] err != nil ==> storeUnchanged()
 //@   modifies map(ci.allocatedFIPs), map(ci.unallocatedFIPs), FloatingIP.Key, FloatingIP.Policy, FloatingIP.UpdatedAt, FloatingIP.NodeName, FloatingIP.PodUid, FloatingIP.Labels, StoreDom, faults
 
 //@ pure attrApplied(f *FloatingIP, key string, attr Attr) bool = f.Key == key && f.Policy == attr.Policy && f.NodeName == attr.NodeName && f.PodUid == attr.Uid
@@ -141,11 +144,13 @@ package floatingip
 //@   ensures [C01,C04:reserve-only-own-key] forall p *FloatingIP :: allocated(p) && old(p.Key) != oldK ==> sameEntry(p)
 //@   ensures [C02:reserve-rekeys] forall p *FloatingIP :: allocated(p) && old(p.Key) == oldK ==> (p.Key == oldK || p.Key == newK) && p.IP == old(p.IP) && p.pool == old(p.pool)
 //@   ensures [C02:reserve-all-on-success] result1 == nil && oldK != newK ==> forall k string :: k in ci.allocatedFIPs ==> ci.allocatedFIPs[k].Key != oldK
+//@   ensures [C04:reserve-store-only-own-key] StoreDom == old(StoreDom) && forall k string :: !(old(StoreDom[k]) && old(StoreKey[k]) == oldK) ==> storeSameAt(k)
 //@   modifies FloatingIP.Key, FloatingIP.Policy, FloatingIP.UpdatedAt, FloatingIP.NodeName, FloatingIP.PodUid, fresh FloatingIP.IP, fresh FloatingIP.pool, fresh FloatingIP.Labels, StoreKey, StorePolicy, StoreNode, StoreUid, faults
 //@   loop 0 invariant held[ptr(ci.cacheLock)] == 2 && inv(ci) && synced(ci) && tablesSame(ci) && ciFieldsSame(ci) && StoreDom == old(StoreDom)
 //@   loop 0 invariant forall p *FloatingIP :: allocated(p) && old(p.Key) != oldK ==> sameEntry(p)
 //@   loop 0 invariant forall p *FloatingIP :: allocated(p) && old(p.Key) == oldK ==> (p.Key == oldK || p.Key == newK) && p.IP == old(p.IP) && p.pool == old(p.pool)
 //@   loop 0 invariant oldK != newK ==> forall k string :: visited[k] && k in ci.allocatedFIPs ==> ci.allocatedFIPs[k].Key != oldK
+//@   loop 0 invariant forall k string :: !(old(StoreDom[k]) && old(StoreKey[k]) == oldK) ==> storeSameAt(k)
 
 //@ pure hasSubnet(pool *FloatingIPPool, s string) bool = s in pool.nodeSubnets
 //@ pure inTable(m map[string]*FloatingIP, p *FloatingIP) bool = exists k string :: k in m && m[k] == p
@@ -256,3 +261,47 @@ package floatingip
 //@   loop 0,1,2,3,4,5,call:walkIPRanges#0/0,call:walkIPRanges#0/1 invariant forall p *FloatingIPPool, r int {p.IPRanges[r]} :: allocated(p) && 0 <= r && r < len(p.IPRanges) ==> nets.wfRange(p.IPRanges[r])
 //@ func [C05,C09] (*crdIpam).listFloatingIPs trusted noeffect
 //@   ensures result1 == nil ==> result0 != nil
+
+
+// ---- ByIP: a copy of the entry; what it reports is what the store holds ----
+//@ func [C04,C01] (*crdIpam).ByIP
+//@   let ipS = ipstr(ip)
+//@   requires inv(ci) && synced(ci) && held[ptr(ci.cacheLock)] == 0
+//@   ensures [C04:byip-reflects-store] result1 == nil && (result0.Key != "" ==> StoreDom[ipS] && StoreKey[ipS] == result0.Key && StoreUid[ipS] == result0.PodUid && StoreNode[ipS] == result0.NodeName && StorePolicy[ipS] == result0.Policy)
+//@   ensures [C04:byip-free-means-no-object] ipS in ci.unallocatedFIPs ==> result0.Key == "" && !StoreDom[ipS]
+//@   ensures [C04:byip-key-means-allocated] result0.Key != "" ==> ipS in ci.allocatedFIPs
+//@   ensures [C04:byip-allocated] ipS in ci.allocatedFIPs ==> result0.Key == ci.allocatedFIPs[ipS].Key && result0.PodUid == ci.allocatedFIPs[ipS].PodUid && result0.NodeName == ci.allocatedFIPs[ipS].NodeName && result0.IP == ci.allocatedFIPs[ipS].IP
+//@   modifies nothing
+
+// ==== the IPAM interface as seen by the scheduler plugin ====
+// Each clause below is, verbatim, a proved postcondition (resp. precondition) of the crdIpam
+// method it abstracts (checked mechanically by the loader); `ci` is the implementation object.
+//@ func (IPAM).ByIP trusted
+//@   let ci = as(crdIpam, self)
+//@   let ip = arg0
+//@   let ipS = ipstr(ip)
+//@   requires inv(ci) && synced(ci) && held[ptr(ci.cacheLock)] == 0
+//@   ensures [C04:byip-reflects-store] result1 == nil && (result0.Key != "" ==> StoreDom[ipS] && StoreKey[ipS] == result0.Key && StoreUid[ipS] == result0.PodUid && StoreNode[ipS] == result0.NodeName && StorePolicy[ipS] == result0.Policy)
+//@   ensures [C04:byip-free-means-no-object] ipS in ci.unallocatedFIPs ==> result0.Key == "" && !StoreDom[ipS]
+//@   ensures [C04:byip-key-means-allocated] result0.Key != "" ==> ipS in ci.allocatedFIPs
+//@   ensures [C04:byip-allocated] ipS in ci.allocatedFIPs ==> result0.Key == ci.allocatedFIPs[ipS].Key && result0.PodUid == ci.allocatedFIPs[ipS].PodUid && result0.NodeName == ci.allocatedFIPs[ipS].NodeName && result0.IP == ci.allocatedFIPs[ipS].IP
+//@   modifies nothing
+//@ func (IPAM).Release trusted
+//@   let ci = as(crdIpam, self)
+//@   let key = arg0
+//@   let ip = arg1
+//@   let ipS = ipstr(ip)
+//@   requires inv(ci) && synced(ci) && held[ptr(ci.cacheLock)] == 0
+//@   ensures [C01,C05] inv(ci)
+//@   ensures [C05] synced(ci)
+//@   ensures [C04:release-store-needs-key-match] err == nil ==> old(StoreDom[ipS]) && old(StoreKey[ipS]) == key
+//@   ensures [C04:release-store-effect] err == nil ==> StoreDom == old(StoreDom)[ipS := false] && StoreKey == old(StoreKey) && StorePolicy == old(StorePolicy) && StoreNode == old(StoreNode) && StoreUid == old(StoreUid)
+//@   ensures [C04:release-store-failure] err != nil ==> storeUnchanged()
+//@   modifies map(ci.allocatedFIPs), map(ci.unallocatedFIPs), FloatingIP.Key, FloatingIP.Policy, FloatingIP.UpdatedAt, FloatingIP.NodeName, FloatingIP.PodUid, FloatingIP.Labels, StoreDom, faults
+//@ func (IPAM).ReserveIP trusted
+//@   let ci = as(crdIpam, self)
+//@   requires inv(ci) && synced(ci) && held[ptr(ci.cacheLock)] == 0
+//@   ensures [C01,C05] inv(ci)
+//@   ensures [C05] synced(ci)
+//@   ensures [C04:reserve-store-only-own-key] StoreDom == old(StoreDom) && forall k string :: !(old(StoreDom[k]) && old(StoreKey[k]) == oldK) ==> storeSameAt(k)
+//@   modifies FloatingIP.Key, FloatingIP.Policy, FloatingIP.UpdatedAt, FloatingIP.NodeName, FloatingIP.PodUid, fresh FloatingIP.IP, fresh FloatingIP.pool, fresh FloatingIP.Labels, StoreKey, StorePolicy, StoreNode, StoreUid, faults
